@@ -389,6 +389,24 @@ def _c08_diff(seed, n):
             outcome[name] = ('raise', type(ex).__name__)
     if len({v[0] for v in outcome.values()}) > 1:
         return ('fail', 'interpreters disagree on evar(1); prop1(); instantiate(prop1, {}): ' + repr({k: v[0] for k, v in outcome.items()}), '', 0)
+    # interpreters that are handed the SAME list of claims, one after the other (ProofExp.serialize does so when optimising): every one must see every claim
+    from proof_generation.claim import Claim
+    cl = [Claim(Implies(MetaVar(0), MetaVar(0))), Claim(Implies(MetaVar(1), MetaVar(1)))]
+    shared = {'stateful': lambda: StatefulInterpreter(P, cl), 'counting': lambda: CountingInterpreter(P, cl),
+              'serializing': lambda: SerializingInterpreter(P, io.BytesIO(), cl, io.BytesIO(), io.BytesIO()),
+              'pretty': lambda: PrettyPrintingInterpreter(P, io.StringIO(), cl, io.StringIO(), io.StringIO()),
+              'memo(ser)': lambda: MemoizingInterpreter(SerializingInterpreter(P, io.BytesIO(), cl, io.BytesIO(), io.BytesIO()), set())}
+    for rnd in (1, 2):
+        for name, mk in shared.items():
+            i = mk()
+            try:
+                for k in (0, 1):
+                    i.publish_proof(prop.imp_refl(MetaVar(k))(i))
+                out = 'ok'
+            except BaseException as ex:
+                out = 'raise ' + type(ex).__name__
+            if out != 'ok' or len(cl) != 2:
+                return ('fail', 'round %d, %s on a claims list shared with the interpreters before it: %s; the caller\'s list now has %d of 2 claims' % (rnd, name, out, len(cl)), '', 0)
     for case in range(n):
         st = rng.getstate()
         try:
